@@ -318,3 +318,24 @@ pub enum Tier {
     Quick,
     Thorough,
 }
+
+thread_local! { static ARTIFACTS: std::cell::RefCell<Vec<Value>> = std::cell::RefCell::new(Vec::new()); }
+
+/// Output of a node that another node (process / build variant) consumes: the driver is the transport.
+pub fn emit_artifact(v: Value) {
+    ARTIFACTS.with(|a| a.borrow_mut().push(v));
+}
+pub fn take_artifacts() -> Vec<Value> {
+    ARTIFACTS.with(|a| std::mem::take(&mut *a.borrow_mut()))
+}
+
+pub fn hex(b: &[u8]) -> String {
+    let mut s = String::with_capacity(b.len() * 2);
+    for x in b {
+        s.push_str(&format!("{:02x}", x));
+    }
+    s
+}
+pub fn unhex(s: &str) -> Vec<u8> {
+    (0..s.len() / 2).map(|i| u8::from_str_radix(&s[2 * i..2 * i + 2], 16).unwrap()).collect()
+}
